@@ -185,12 +185,14 @@ def validate_stateful_trace(run, scratch, name, module, events, n_prefix, corrup
     if stuck is not None:
         # the log line the specification could not consume, with its context (the iterator it belongs to)
         i = stuck - 1
-        j = i
-        while j > 0 and events[j].get("t") != "begin":
+        j = max(0, min(i, len(events) - 1))
+        while j > 0 and events[j].get("t") not in ("begin", "file"):
             j -= 1
         sig = {"step": name}
         if signature:
             sig.update(signature(events[j]))
+        ctx = events[j] if events[j].get("t") != "file" else {"t": "file", "len": len(events[j].get("src", []))}
         run.violation(name, {"signature": sig, "unconsumed_line": stuck, "event": events[i] if 0 <= i < len(events) else None,
-                             "iterator_begun_at": events[j], "lines_from_begin": events[j:i + 1][:12]})
+                             "iterator_begun_at": ctx,
+                             "lines_before": [e for e in events[max(1, i - 3):i + 1] if e.get("t") != "file"]})
     return stuck
